@@ -32,7 +32,7 @@ READY = {
     "OHVerif.Props.C16", "OHVerif.Props.C20", "OHVerif.Props.C03",
     "OHVerif.Props.C12Type", "OHVerif.Props.C14Optic", "OHVerif.Props.C19Build",
     "OHVerif.Props.C10Iso", "OHVerif.Props.C04Lax",
-    "OHVerif.Props.C12Subst", "OHVerif.Props.C13Native",
+    "OHVerif.Props.C12Subst", "OHVerif.Props.C13Native", "OHVerif.Props.C19Sem",
 }
 
 def _mods(*names):
@@ -62,7 +62,7 @@ PROPS = {
     "C16": dict(modules=_mods("OHVerif.Props.C16"), groups=[("eval", 3000)], deps=[("graph", 600)]),
     "C17": dict(modules=_mods("OHVerif.Props.C17"), groups=[("oh", 2000), ("hg", 1500), ("graph", 800)], deps=[("prim", 300)], release=True),
     "C18": dict(modules=_mods("OHVerif.Props.C18"), groups=[("graph", 3000)], deps=[("ic", 300)]),
-    "C19": dict(modules=_mods("OHVerif.Props.C19", "OHVerif.Props.C19Build"), groups=[("var", 2500)], deps=[("dynfunctor", 300), ("lax.edit", 300)]),
+    "C19": dict(modules=_mods("OHVerif.Props.C19", "OHVerif.Props.C19Build", "OHVerif.Props.C19Sem"), groups=[("var", 2500)], deps=[("dynfunctor", 300), ("lax.edit", 300)]),
     "C20": dict(modules=_mods("OHVerif.Props.C20"),
                 groups=_ADV("oh", 800) + _ADV("law", 600) + _ADV("graph", 700) + _ADV("eval", 600) + _ADV("functor", 300) + _ADV("ff", 500) + _ADV("prim", 500) + _ADV("hg", 400) + _ADV("ic", 300),
                 deps=[]),
